@@ -82,6 +82,9 @@ TMetrics == /\ IsEv("Metrics") /\ Consume /\ UNCHANGED s
             /\ E.pending = s.pending /\ E.persistentChunks = s.gChunks /\ E.persistentBytes = s.gBytes
             /\ E.inTransient = s.cInT /\ E.inPersistent = s.cInP /\ E.consumed = s.cCons /\ E.leftover = s.cLeft
             /\ E.dropped = s.cDrop /\ E.ioErrors = s.cIo /\ E.queuedTransient = s.qT /\ E.queuedPersistent = s.qP
+\* the consumer noticed the InputClosed signal (logged by the harness consumer; the feeder's own FeederCloseOut event may
+\* come before or after it): nothing changes, what the consumer does next is constrained by its own actions
+TConsSawClosed == IsEv("ConsSawClosed") /\ Consume /\ UNCHANGED s
 TReset == IsEv("RESET") /\ s.dpc = "done" /\ s' = S0 /\ Consume
 
 TNext ==
@@ -90,7 +93,7 @@ TNext ==
   \/ TFeederPop \/ TFeederEnd \/ TFeederLoad \/ TFeederPush \/ TFeederCloseOut \/ TFeederSave \/ TFeederSaveDone
   \/ TFeederConsDone \/ TFeederStopped
   \/ TTakeBegin \/ TTakeEnd \/ TConfirmBegin \/ TConfirmEnd \/ THandBackBegin \/ THandBackEnd \/ TConsFinish
-  \/ TGeneration \/ TRecover \/ TStartEnd \/ TDisk \/ TMetrics \/ TReset
+  \/ TConsSawClosed \/ TGeneration \/ TRecover \/ TStartEnd \/ TDisk \/ TMetrics \/ TReset
 
 TSpec == TInit /\ [][TNext]_tvars
 
